@@ -19,7 +19,8 @@ TRUSTED = [
     'coq/Sem/Val.v: model of scipp unit algebra, dtype promotion, to_unit, astype, sqrt, where, comparisons (element-wise)',
     'coq/Sem/RInst.v: the R instance does not decide equality of unit multipliers in + - <= where (fail-closed, see file); the Q instance does',
     'coq/Sem/QInst.v rational approximation of sqrt (correspondence only)',
-    'tools/harness/c05_impl.py + lib/kcorr.py (exact serialisation of operands/results)',
+    'tools/harness/c05_impl.py + lib/kcorr.py (exact serialisation of operands/results); tools/harness/c05_sweep.py and statement() in props/C05.py '
+    '(the property statement in float64 Python: t0 = L sqrt(m_n/(2E)) from the operands as stored)',
     'Flocq 4.1.0 (Core, IEEE754.BinarySingleNaN) as the model of IEEE-754 arithmetic (coq/C05/NeverInf.v)',
 ]
 ASSUMPTIONS = [
@@ -39,7 +40,7 @@ LEVEL_NOTE = ('Trusted: Coq kernel; std-lib real axioms; py2coq; Sem/Val.v; boun
               'absence of inf proved for the value-branch chain under stated magnitude hypotheses (PropertiesFloat.v).')
 TECHNIQUE = 'Coq proof on regenerated terms (cbv + field over R, sqrt lemmas) + vm_compute correspondence with condition-aware tolerance'
 
-EUNITS = [('meV', 1.602176634e-22), ('J', 1.0), ('eV', 1.602176634e-19)]
+EUNITS = [('meV', 1.602176634e-22), ('J', 1.0), ('eV', 1.602176634e-19), ('ueV', 1.602176634e-25)]
 LUNITS = [('m', 1.0), ('mm', 1e-3), ('km', 1e3)]
 TUNITS = [('s', 1.0), ('ms', 1e-3), ('us', 1e-6), ('ns', 1e-9)]
 KS = [-2, -1, 0, 1, 2, 8, 1024]
@@ -58,15 +59,132 @@ def gen(rng, n):
              'Ei': loguniform(rng, 1e-3, 1e4) * 1.602176634e-22, 'Ef': loguniform(rng, 1e-3, 1e4) * 1.602176634e-22,
              'L1': loguniform(rng, 0.1, 1e3), 'L2': loguniform(rng, 0.1, 1e3),
              'units': {'tof': tu[0], 'L1': rng.choice(LUNITS)[0], 'L2': rng.choice(LUNITS)[0],
-                       'E': rng.choice(EUNITS)[0]},
+                       'E': rng.choice(EUNITS[:3])[0]},
              'dtypes': {'tof': dt_tof, 'L1': rng.choice(['float64', 'float32', 'int64']) if rng.random() < 0.3 else 'float64',
                         'L2': rng.choice(['float64', 'float32']) if rng.random() < 0.3 else 'float64', 'E': dt_E},
              'ks': KS, 'extra': [0.5, 0.999, 1 - 1e-6, 1 - 1e-9, 1 + 1e-9, 1 + 1e-6, 1.001, 1.5, 3.0, 10.0]}
         for k in ('L1', 'L2'):
             if g['dtypes'][k] == 'int64':
                 g['units'][k] = 'mm'
+        if rng.random() < 0.25:
+            g['units']['E'] = 'ueV'
+        # every third group: the fixed energy in J, double precision throughout for half of them (the unit in which a
+        # physical neutron energy is a very small number, 1.6e-25..1.6e-18)
+        if i % 3 == 1:
+            g['units']['E'] = 'J'
+            if rng.random() < 0.5:
+                g['dtypes'] = {k: ('float64' if v == 'float32' else v) for k, v in g['dtypes'].items()}
+        # per-element lengths / fixed energy (arrays along the tof dim) instead of scalars
+        g['layout'] = 'aligned' if rng.random() < 0.25 else 'scalar'
         groups.append(g)
     return groups
+
+
+def _num(v):
+    from fractions import Fraction
+    return v if isinstance(v, str) else float(Fraction(int(v[0]), int(v[1])))
+
+
+ROUTES = (('kernel', 'result', 'error'), ('graph', 'result_graph', 'error_graph'), ('convert', 'result_convert', 'error_convert'))
+
+
+def statement(ctx, g0, r, mn, stats=None):
+    """THE PROPERTY STATEMENT evaluated on the implementation's answers for one group, for every entry point (kernel,
+    graph factory, convert): result in the unit of the supplied energy; Ei - Ef at the physical arrival time (element 0);
+    NaN at / before the flight time t0 of the fixed-energy leg and a number clearly after it; never infinite.
+    t0 = L sqrt(m_n / (2 E)) is computed here from the operands as stored - not taken from the implementation."""
+    import math
+    if 'build_error' in r or 'operands' not in r:
+        return
+    mode = g0['mode']
+    g = dict(g0, **r['si'])
+    ops = r['operands']
+    in32 = any(o['dtype'] == 'float32' for o in ops.values())
+    u = 2e-5 if in32 else 1e-12
+    tof = [_num(v) for v in ops['tof']['values']]
+    t0f = r['t0_formula']
+    Efix = g['Ei'] if mode == 'direct' else g['Ef']
+    Efree = g['Ef'] if mode == 'direct' else g['Ei']
+    tfix = (g['L1'] if mode == 'direct' else g['L2']) * math.sqrt(mn / (2 * Efix))
+    tfree = (g['L2'] if mode == 'direct' else g['L1']) * math.sqrt(mn / (2 * Efree))
+    cond = (tfix + tfree) / tfree
+    want = r['expected_si']
+    shown = {'group': {k: g[k] for k in ('mode', 'units', 'dtypes', 'Ei', 'Ef', 'L1', 'L2')}, 'layout': g0.get('layout', 'scalar'),
+             'operands': {k: {'value': _num(o['values'][0]), 'unit': o['unit']['name'], 'dtype': o['dtype'], 'dims': o['dims']}
+                          for k, o in ops.items() if k != 'tof'},
+             'tof': {'values': tof, 'unit': ops['tof']['unit']['name'], 'dtype': ops['tof']['dtype']},
+             't0_of_fixed_leg': t0f, 't0_source_for_the_probes': r.get('t0_source')}
+    tunit = shown['tof']['unit']
+    kernel_bad = False
+    for route, rk, ek in ROUTES:
+        pre = f'{mode}:{route}'
+        if ek in r:
+            if route == 'kernel' or 'error' not in r:
+                ctx.violation(f'{mode}:{route}-raises', f'{mode} via {route} raises {r[ek]} {r.get("error_text", "")} for positive finite operands: {shown}',
+                              dict(shown, route=route, error=r[ek]))
+            continue
+        res = r.get(rk)
+        if res is None:
+            continue
+        rep = dict(shown, route=route)
+        if 'values' not in res or res.get('unit') is None:
+            ctx.violation(f'{pre}:result-shape', f'{mode} via {route} does not return a variable with a unit: {str(res)[:200]} on {shown}', rep)
+            continue
+        vals = [_num(v) for v in res['values']]
+        rep['result'] = {'values': vals, 'unit': res['unit']['name'], 'dtype': res['dtype']}
+        eu = ops['E']['unit']
+        if res['unit']['dims'] != eu['dims'] or res['unit']['mult'] != eu['mult']:
+            ctx.violation(f'{pre}:result-unit', f'{mode} via {route}: the energy was supplied in {eu["name"]} but the result is in {res["unit"]["name"]}: {rep}', rep)
+            continue
+        if len(vals) != len(tof):
+            ctx.violation(f'{pre}:result-shape', f'{mode} via {route} returns {len(vals)} elements for {len(tof)} arrival times: {rep}', rep)
+            continue
+        if stats is not None:
+            stats['statement_elements'] = stats.get('statement_elements', 0) + len(vals)
+        # (one report per group and entry point, the most telling first; graph / convert are not reported again for a group
+        #  whose kernel answer already violates the statement - they call the kernel)
+        phys = g['dtypes']['tof'] != 'int64'        # an integer arrival time is not the physical one
+        bad = None
+        for i, (t, v) in enumerate(zip(tof, vals)):
+            if v in ('inf', '-inf'):
+                bad = ('infinite-result', f'returns {v} for the finite arrival time {t!r} {tunit} (element {i})')
+                break
+        if bad is None:
+            for i, (t, v) in enumerate(zip(tof, vals)):
+                if t <= t0f * (1 - u) and v != 'nan':
+                    bad = ('number-before-t0', f'returns {v!r} for the arrival time {t!r} {tunit} before the flight time {t0f!r} of the fixed-energy leg (element {i})')
+                    break
+        if bad is None and phys and vals[0] == 'nan' and cond * u < 0.05 and tof[0] >= t0f * (1 + 4 * u):
+            bad = ('nan-at-physical-time', f'returns NaN for the physical arrival time t = L1/v(Ei) + L2/v(Ef) = {tof[0]!r} {tunit} '
+                   f'(flight time of the fixed leg {t0f!r}); Ei - Ef = {want} J expected')
+            rep['want_si'] = want
+        if bad is None:
+            for i, (t, v) in enumerate(zip(tof, vals)):
+                if i > 0 and t >= t0f * (1 + 4 * u) and v == 'nan':
+                    bad = ('nan-after-t0', f'returns NaN for the arrival time {t!r} {tunit} after the flight time {t0f!r} of the fixed-energy leg (element {i})')
+                    break
+        if bad is not None:
+            if route == 'kernel' or not kernel_bad:
+                ctx.violation(f'{pre}:{bad[0]}', f'{mode} via {route} {bad[1]}: {rep}', rep)
+            kernel_bad = kernel_bad or route == 'kernel'
+            continue
+        # element 0: the physical arrival time t = L1/v(Ei) + L2/v(Ef)
+        v = vals[0]
+        if not phys or isinstance(v, str):
+            continue
+        any32 = res['dtype'] == 'float32'
+        uv = 2e-5 if any32 else 1e-12      # scipp's unit conversion factors alone carry ~4e-14 (probed)
+        got = v * _num(res['unit']['mult'])
+        bound = cond * Efree + Efix
+        rep.update(got_si=got, want_si=want)
+        if abs(got - want) > uv * bound and in32 and not any32 and abs(got - want) <= 2e-5 * bound:
+            ctx.violation(f'{mode}:value-single-precision-level',
+                          f'{mode}: float64 result is only single-precision accurate with a float32 operand: Ei-Ef = {want} J, returned {got} J', rep)
+        elif abs(got - want) > uv * bound:
+            if route == 'kernel' or not kernel_bad:
+                ctx.violation(f'{mode}:conservation' if route == 'kernel' else f'{pre}:conservation',
+                              f'{mode} via {route}: Ei-Ef = {want} J but the implementation returns {got} J: {rep}', rep)
+            kernel_bad = kernel_bad or route == 'kernel'
 
 
 def correspondence(ctx):
@@ -77,6 +195,10 @@ def correspondence(ctx):
     h, mn = res['constants']['h']['value'], res['constants']['m_n']['value']
     terms, descs = [], []
     n_nan = n_val = n_inf = 0
+    stats = {}
+    fallback = [r.get('t0_source') for r in res['groups'] if str(r.get('t0_source', 'helper')) != 'helper']
+    if fallback:
+        ctx.note(f'_energy_transfer_t0 of the implementation not usable for {len(fallback)} of {len(groups)} groups, probes placed around the formula value: {fallback[0]}')
     for g, r in zip(groups, res['groups']):
         if 'build_error' in r:
             ctx.note('harness could not build a group: ' + r['build_error'])
@@ -88,13 +210,17 @@ def correspondence(ctx):
         for route in ('graph', 'convert'):
             if 'result_' + route in r:
                 routes.append((route, dict(r, result=r['result_' + route])))
-            elif 'error_' + route in r and 'error' not in r:
-                ctx.violation(f'{g["mode"]}:{route}-raises', f'{g["mode"]} via {route} raises {r["error_" + route]} where the kernel returns', {'group': g, 'error': r['error_' + route]})
         for route, rr in routes:
-          for t, d in kcorr.element_cases(g['mode'], ['tof', 'L1', 'L2', 'E'], greq, rr, tol):
+          try:
+            cases = kcorr.element_cases(g['mode'], ['tof', 'L1', 'L2', 'E'], greq, rr, tol)
+          except Exception as ex:      # an answer that cannot be written as a Coq case (other shape, no unit ...): statement() reports it
+            ctx.note(f'group {g["id"]} via {route} not comparable with the model: {type(ex).__name__}: {ex}')
+            continue
+          for t, d in cases:
             terms.append(t)
             d['group'] = {k: g[k] for k in ('mode', 'units', 'dtypes')}
             d['route'] = route
+            d['layout'] = g.get('layout', 'scalar')
             descs.append(d)
             if route != 'kernel':
                 continue
@@ -103,36 +229,17 @@ def correspondence(ctx):
                 n_nan += v == 'nan'
                 n_inf += v in ('inf', '-inf')
                 n_val += not isinstance(v, str)
-        # the property's own statement on the implementation: the first tof is the physical arrival time
-        if 'result' in r and not isinstance(r['result']['values'][0], str):
-            from fractions import Fraction
-            v = r['result']['values'][0]
-            got = float(Fraction(int(v[0]), int(v[1]))) * float(Fraction(int(r['result']['unit']['mult'][0]), int(r['result']['unit']['mult'][1])))
-            want = r['expected_si']
-            g = dict(g, **r['si'])
-            Efix = g['Ei'] if g['mode'] == 'direct' else g['Ef']
-            Efree = g['Ef'] if g['mode'] == 'direct' else g['Ei']
-            import math
-            mnv = kcorr.fmt(mn)
-            tfix = (g['L1'] if g['mode'] == 'direct' else g['L2']) * math.sqrt(mnv / (2 * Efix))
-            tfree = (g['L2'] if g['mode'] == 'direct' else g['L1']) * math.sqrt(mnv / (2 * Efree))
-            cond = (tfix + tfree) / tfree
-            u = 2e-5 if any32 else 1e-12     # scipp's unit conversion factors alone carry ~4e-14 (probed)
-            if g['dtypes']['tof'] == 'int64':
-                continue    # an integer arrival time is not the physical one
-            in32 = any(o['dtype'] == 'float32' for o in r['operands'].values())
-            if abs(got - want) > u * (cond * Efree + Efix) and in32 and not any32 and abs(got - want) <= 2e-5 * (cond * Efree + Efix):
-                ctx.violation(f'{g["mode"]}:value-single-precision-level',
-                              f'{g["mode"]}: float64 result is only single-precision accurate with a float32 operand: Ei-Ef = {want} J, returned {got} J',
-                              {'group': g, 'got_si': got, 'want_si': want})
-            elif abs(got - want) > u * (cond * Efree + Efix):
-                ctx.violation(f'{g["mode"]}:conservation',
-                              f'{g["mode"]}: Ei-Ef = {want} J but the implementation returns {got} J', {'group': g, 'got_si': got, 'want_si': want})
+        # the property's own statement on the implementation, every entry point
+        try:
+            statement(ctx, g, r, kcorr.fmt(mn), stats)
+        except Exception as ex:
+            ctx.violation(f'{g["mode"]}:answer-not-evaluable', f'the answers for group {g} cannot be evaluated against the statement: {type(ex).__name__}: {ex}; {str(r)[:600]}',
+                          {'group': g, 'answer': r})
     header = ('From Coq Require Import QArith ZArith String List.\n'
               'From Verif.Sem Require Import Field Val QInst Corr.\nFrom Run Require Import Corr.\n'
               'Import ListNotations.\nOpen Scope string_scope.\n'
               f'Definition H : Q := {kcorr.q(h)}.\nDefinition MN : Q := {kcorr.q(mn)}.\n')
-    fails, errors = ctx.coq_eval_shards(header, terms, lambda k: 'Eval vm_compute in (report (map (check H MN) cases)).\n', shard=300)
+    fails, errors = ctx.coq_eval_shards(header, terms, lambda k: 'Eval vm_compute in (report (map (check H MN) cases)).\n', shard=210)
     for name, e in errors:
         ctx.violation('corr-shard-error', f'correspondence shard {name} did not evaluate: {e[:300]}', {'shard': name, 'error': e}, found_input=False)
     for i, why in sorted(fails.items()):
@@ -147,8 +254,15 @@ def correspondence(ctx):
         'evaluations': len(terms),
         'distinct_nontrivial': len({repr(d['operands']) for d in descs if isinstance(d['impl'], dict)}),
         'routes': {rt: sum(1 for d in descs if d['route'] == rt) for rt in ('kernel', 'graph', 'convert')},
-        'rule': 'each group is run through the kernel, the graph factory entry and scippneutron.convert; per group: Ei,Ef in 1e-3..1e4 meV, L in 0.1..1e3 m, random units/dtypes; arrival times = physical t, '
-                't0*(1+k*eps) for k in -2..1024 (t0 from the implementation), t0*{0.5..10}; non-trivial = a result element (NaN or value) was produced',
+        'rule': 'each group is run through the kernel, the graph factory entry and scippneutron.convert; per group: Ei,Ef in 1e-3..1e4 meV, L in 0.1..1e3 m, random units/dtypes '
+                '(fixed energy in meV / eV / ueV / J; every third group in J, half of those all-float64), L1, L2, E scalars or arrays along the tof dim; arrival times = physical t, '
+                't0*(1+k*eps) for k in -2..1024 (t0 from the implementation; from the formula when the helper is unusable), t0*{0.5..10}; non-trivial = a result element (NaN or value) was produced; '
+                'besides the Coq comparison with the regenerated model the statement itself (unit of the result, Ei-Ef at the physical time, NaN before / number after the formula t0, never infinite) '
+                'is evaluated in Python on all three entry points',
+        'energy_units': {eu: sum(1 for g in groups if g['units']['E'] == eu) for eu in ('meV', 'eV', 'ueV', 'J')},
+        'J_all_float64_groups': sum(1 for g in groups if g['units']['E'] == 'J' and 'float32' not in g['dtypes'].values()),
+        'layouts': {lay: sum(1 for g in groups if g.get('layout', 'scalar') == lay) for lay in ('scalar', 'aligned')},
+        'statement_elements_checked': stats.get('statement_elements', 0),
         'samples': descs[:2] + descs[7:9],
         'observed': {'nan': n_nan, 'finite': n_val, 'infinite': n_inf},
         'disagreements': len(fails),
@@ -156,17 +270,38 @@ def correspondence(ctx):
 
 
 def boundary_sweep(ctx, n):
-    """never infinite / NaN at and before t0, evaluated on the implementation with all operands in one float type,
-    small and large length units, arrival times from the first representable value after t0 (c05_sweep.py)"""
+    """the statement (never infinite; NaN at and before t0, a number clearly after it; Ei-Ef at the physical arrival time;
+    unit of the supplied energy) evaluated on the implementation with all operands in one float type, small and large
+    length units, energies in ueV / meV / eV / J (float32 + J with mm / m / km only: known finding float32-range), kernel /
+    graph factory / convert, scalar operands or three situations at once (per-detector arrays, 2-D arrival times),
+    arrival times from the first representable value after t0 (c05_sweep.py)"""
     res = ctx.run_impl('c05_sweep.py', {'seed': ctx.seed, 'n': n})
     ctx.coverage['boundary_sweep_results_checked'] = ctx.coverage.get('boundary_sweep_results_checked', 0) + res.get('checked', 0)
+    cl = ctx.coverage.setdefault('boundary_sweep_classes', {})
+    for k, v in (res.get('classes') or {}).items():
+        cl[k] = cl.get(k, 0) + v
     return res.get('harness_violations') or []
 
 
 def search(ctx, broken):
-    # the correspondence already evaluates conservation and the NaN pattern on the implementation; the sweep below
-    # evaluates the "never infinite" clause over many more (dtype, unit) corners
-    return [v['key'] for v in boundary_sweep(ctx, 3000)]
+    """a broken obligation (translation / proof / exercise tie): evaluate the PROPERTY STATEMENT on the implementation over a
+    much larger stream of groups (all entry points, all energy units incl. J in double precision, scalar and per-element
+    operands) - no model involved - and over the one-float-type sweep"""
+    keys = [v['key'] for v in boundary_sweep(ctx, 3000)]
+    rng = random.Random(ctx.seed * 7919 + 5)
+    groups = gen(rng, 400 if ctx.tier == 'quick' else 4000)
+    res = ctx.run_impl('c05_impl.py', {'groups': groups})
+    mn = kcorr.fmt(res['constants']['m_n']['value'])
+    before = len(ctx.violations)
+    stats = {}
+    for g, r in zip(groups, res['groups']):
+        try:
+            statement(ctx, g, r, mn, stats)
+        except Exception as ex:
+            ctx.violation(f'{g["mode"]}:answer-not-evaluable', f'the answers for group {g} cannot be evaluated against the statement: {type(ex).__name__}: {ex}; {str(r)[:600]}',
+                          {'group': g, 'answer': r})
+    ctx.coverage['search_statement_elements'] = ctx.coverage.get('search_statement_elements', 0) + stats.get('statement_elements', 0)
+    return keys + [v.key for v in ctx.violations[before:]]
 
 
 def replay(ctx, obj):
